@@ -151,6 +151,28 @@ fn check_pool() {
     });
 }
 
+/// every registered name of not / if / elseif / else / while, from the live registry (index: 0 not, 1 if, 2 elseif, 3 else, 4 while)
+fn consumer_names() -> Vec<Vec<String>> {
+    thread_local! {
+        static NAMES: std::cell::RefCell<Option<Vec<Vec<String>>>> = std::cell::RefCell::new(None);
+    }
+    NAMES.with(|n| {
+        let mut n = n.borrow_mut();
+        if n.is_none() {
+            let c = sdk_context();
+            let mut all = vec![];
+            for alias in ["not", "if", "elseif", "else", "while"] {
+                let cmd = c.commands.get(alias).unwrap_or_else(|| panic!("harness: no command {}", alias));
+                let mut v = vec![cmd.name()];
+                v.extend(cmd.aliases());
+                all.push(v);
+            }
+            *n = Some(all);
+        }
+        n.clone().unwrap()
+    })
+}
+
 /// Runs one condition through the four consumers and compares with the reference.
 fn run_condition(toks: &[Tok], mut spell: impl FnMut(bool) -> String, st: &mut Stats, tag: &str) -> Verdict {
     check_pool();
@@ -195,10 +217,17 @@ fn run_condition(toks: &[Tok], mut spell: impl FnMut(bool) -> String, st: &mut S
     for i in 0..side.len() {
         script.push_str(&format!("v{} = put {}\n", i, i));
     }
-    script.push_str(&format!("r = not {}\n", cond));
-    script.push_str(&format!("if {}\n    emit if T\nelse\n    emit if F\nend\n", cond));
-    script.push_str(&format!("if false\n    emit wrong\nelseif {}\n    emit elseif T\nelse\n    emit elseif F\nend\n", cond));
-    script.push_str(&format!("while {}\n    emit while T\n    goto :out\nend\n:out emit done\n", cond));
+    // every consumer under any of its registered names (the choice is a function of the condition)
+    let h = toks.len() * 31 + side.len() * 7 + side.iter().map(|v| v.len()).sum::<usize>();
+    let names = consumer_names();
+    let pick = |k: usize, salt: usize| -> &str { &names[k][(h / (salt + 1)) % names[k].len()] };
+    if names.iter().enumerate().any(|(k, _)| pick(k, k).contains("::")) {
+        st.class("consumer-spelled-with-its-full-name");
+    }
+    script.push_str(&format!("r = {} {}\n", pick(0, 0), cond));
+    script.push_str(&format!("{} {}\n    emit if T\n{}\n    emit if F\nend\n", pick(1, 1), cond, pick(3, 3)));
+    script.push_str(&format!("{} false\n    emit wrong\n{} {}\n    emit elseif T\n{}\n    emit elseif F\nend\n", pick(1, 4), pick(2, 2), cond, pick(3, 5)));
+    script.push_str(&format!("{} {}\n    emit while T\n    goto :out\nend\n:out emit done\n", pick(4, 6), cond));
     hz_reset();
     with_hz(|h| h.side = side);
     let out = run_text(&script, sdk_context(), 20_000, None);
@@ -310,10 +339,36 @@ fn gen_e(t: &mut Tape, depth: usize, budget: &mut usize, out: &mut Vec<Tok>) {
 
 fn case_random(t: &mut Tape, st: &mut Stats) -> Verdict {
     let mut toks = vec![];
-    let mut budget = 24;
-    gen_e(t, 0, &mut budget, &mut toks);
-    if toks.len() > 60 {
-        return Verdict::Discard("over 60 tokens");
+    if t.chance(1, 25) {
+        // a wide statement: 40..140 parenthesised groups on one level (the rule does not depend on how many there are)
+        let groups = 40 + t.below(101);
+        for g in 0..groups {
+            if g > 0 {
+                toks.push(if t.chance(1, 3) { Tok::And } else { Tok::Or });
+            }
+            if t.chance(1, 6) {
+                toks.push(if t.flip() { Tok::T } else { Tok::F });
+                continue;
+            }
+            toks.push(Tok::Open);
+            let atoms = t.below(3);
+            for a in 0..atoms {
+                if a > 0 {
+                    toks.push(if t.flip() { Tok::And } else { Tok::Or });
+                }
+                toks.push(if t.chance(1, 4) { Tok::T } else { Tok::F });
+            }
+            toks.push(Tok::Close);
+        }
+        if groups > 64 {
+            st.class("more-than-64-groups-on-one-level");
+        }
+    } else {
+        let mut budget = 24;
+        gen_e(t, 0, &mut budget, &mut toks);
+        if toks.len() > 60 {
+            return Verdict::Discard("over 60 tokens");
+        }
     }
     if toks.len() > 14 {
         st.class("longer-than-exhaustive-bound");
@@ -565,7 +620,7 @@ fn case_truthiness(t: &mut Tape, st: &mut Stats) -> Verdict {
 pub fn property() -> Property {
     Property {
         id: "C06",
-        rule: "(grammar) EXHAUSTIVE enumeration of every well-formed token sequence of E := A ((and|or) A)*, A := T | F | ( E? ) up to 11 tokens (quick) / 15 tokens (thorough), each T/F spelled with a truthy/falsy value from a pool and passed through a variable, run through all four consumers (not, if, elseif, while) and compared with a 40-line and-of-ors reference evaluator; (random) longer sequences up to 60 tokens, nesting <= 6; (re-evaluated) two conditions A, B of up to ~10 tokens whose atoms are variables re-assigned before each of 2..5 visits of the same `not A` / `if A .. elseif B [else] end` / `while B` lines inside a while or for-in loop: every visit must decide by the values current at that visit; (truthiness) every falsy spelling with case variants, near-misses (incl. falsy words padded with blanks) and arbitrary strings through not / if - and, for values outside the C09 classes, through `if not` and `while not` - against the ASCII-case-insensitive table; 'absent' is an undefined variable or a function in command position that ends without a value after a command with a truthy output (through not, if, elseif, while). Non-trivial: sequence with a group or both connectives; distinct by (token sequence, atom values)",
+        rule: "(grammar) EXHAUSTIVE enumeration of every well-formed token sequence of E := A ((and|or) A)*, A := T | F | ( E? ) up to 11 tokens (quick) / 15 tokens (thorough), each T/F spelled with a truthy/falsy value from a pool and passed through a variable, run through all four consumers (not, if, elseif, while - each written with any of its registered names, aliases or the full std::... name) and compared with a 40-line and-of-ors reference evaluator; (random) longer sequences up to 60 tokens, nesting <= 6, and wide statements of 40..140 sibling groups (up to ~600 tokens); (re-evaluated) two conditions A, B of up to ~10 tokens whose atoms are variables re-assigned before each of 2..5 visits of the same `not A` / `if A .. elseif B [else] end` / `while B` lines inside a while or for-in loop: every visit must decide by the values current at that visit; (truthiness) every falsy spelling with case variants, near-misses (incl. falsy words padded with blanks) and arbitrary strings through not / if - and, for values outside the C09 classes, through `if not` and `while not` - against the ASCII-case-insensitive table; 'absent' is an undefined variable or a function in command position that ends without a value after a command with a truthy output (through not, if, elseif, while). Non-trivial: sequence with a group or both connectives; distinct by (token sequence, atom values)",
         assumptions: &[
             "atom values are never the keywords and/or/(/) and never a registered command name (documented dispatch rule for the first token)",
             "only well-formed statements are generated",
@@ -578,7 +633,7 @@ pub fn property() -> Property {
                     Tier::Thorough => Plan::Skip,
                 },
                 case: case_exhaustive_quick,
-                min_classes: &[("group-first-then-or", 100), ("empty-group", 100), ("nested-group", 100), ("group-last", 100)],
+                min_classes: &[("group-first-then-or", 100), ("empty-group", 100), ("nested-group", 100), ("group-last", 100), ("consumer-spelled-with-its-full-name", 1000)],
             },
             Section {
                 name: "grammar-exhaustive-15",
@@ -596,7 +651,7 @@ pub fn property() -> Property {
                     Tier::Thorough => Plan::Random { cases: 1_800_000, max_len: 200 },
                 },
                 case: case_random,
-                min_classes: &[("longer-than-exhaustive-bound", 1000)],
+                min_classes: &[("longer-than-exhaustive-bound", 1000), ("more-than-64-groups-on-one-level", 300)],
             },
             Section {
                 name: "re-evaluated",
